@@ -61,8 +61,8 @@ TSealRet ==
   /\ IsEvent("SealRet")
   /\ IF E.ok THEN /\ I!Emit(E.wire, SetOf(E.fresh))
                   /\ E.footer = op.footer                                   \* the token carries the footer it was given
-                  /\ E.len = TokenPayloadLen(op.ver, op.purpose, E.clen)     \* and has the prescribed length
-                  /\ EmbedOK("seal", op.ver, op.purpose, op.drawn, SetOf(E.fresh))   \* the drawn randomness is what it embeds (C16)
+                  /\ E.len = TokenPayloadLen(op.ver, I!Base(op.purpose), E.clen)     \* and has the prescribed length
+                  /\ EmbedOK("seal", op.ver, I!Base(op.purpose), op.drawn, SetOf(E.fresh))   \* the drawn randomness is what it embeds (C16)
              ELSE I!SealFail(E.errc)
   /\ UNCHANGED texts
 
